@@ -211,6 +211,11 @@ func fitnessOf(fit, gen, idx, n int, org *genetics.Organism) float64 {
 			return float64(gen + 1)
 		}
 		return float64((idx*(n-1)+gen)%n + 1)
+	case 11: // mixed signs
+		if idx%2 == 0 {
+			return -float64(idx + 1)
+		}
+		return float64(idx + 1)
 	case 10: // exact zeros and two tiny positive values (below the 1e-4 the library substitutes for negative fitness)
 		switch (idx + gen) % 4 {
 		case 1:
@@ -838,6 +843,17 @@ func (r *popRun) checkQuotas(pre *preEpoch, pop *genetics.Population, epoch int)
 					ref = k
 				} else if !relClose(ref, k, 1e-9) {
 					r.violate("C09", "fitness-sharing", fmt.Sprintf("species %d of size %d: adjusted/original*size is %g for one member and %g for another (fitness is not shared uniformly)", s.Id, len(mem), ref, k), epoch)
+					return
+				}
+			} else if f < 0 {
+				// a negative result of the age adjustment is replaced by 0.0001 and then shared (the
+				// adjustment of a negative value stays negative; with age significance 0 it becomes zero)
+				want := 0.0001 / float64(len(mem))
+				if wantFactor == 0 {
+					want = 0
+				}
+				if !relClose(o.Fitness, want, 1e-9) && !(want == 0 && o.Fitness == 0) {
+					r.violate("C09", "negative-fitness", fmt.Sprintf("species %d (age %d, last improved at age %d, size %d): an organism of negative fitness %g ends with adjusted fitness %g; a negative age-adjusted value is replaced by 0.0001 and shared by the species size: %g", s.Id, pre.spAge[s.Id], pre.spALI[s], len(mem), f, o.Fitness, want), epoch)
 					return
 				}
 			} else if o.Fitness != 0 {
